@@ -630,6 +630,9 @@ def arm (i : Input) (obs : AddObs) : String :=
     h ++ (if unpinRefused then "-unpin-refused" else "") ++ (if arg.isSome then "-slash" else "") ++ "-" ++ toString o.status ++
       -- (repo/gc keeps the arm name `repoGCHandler-200` when the trailer is set: K12d's registered signature is keyed on it)
       (if o.serr && h != "repoGCHandler" then "-serr" else "") ++
+      -- a collection that reported errors, answered without the trailer (stream-errors=true): its own arm, so that K12d's
+      -- signature (which does not look at the query) cannot match an implementation that sets the trailer there too
+      (if h == "repoGCHandler" && o.status == 200 && i.env.gcErr != 0 && !o.serr then "-errors-in-body" else "") ++
       (if o.rpcs.any (fun r => !r.ok) then "-rpcfail" else "")
 
 /-- the arguments whose ParsePath / cid.Decode result the model consults -/
